@@ -50,6 +50,9 @@ func genPacket(r *gen.Rand) (p packet.Packet, pay []byte, hasPay bool) {
 		return p, nil, false
 	case 1, 2:
 		p[3] |= 0x10
+		if r.Chance(4) {
+			copy(p[4:], [][]byte{{0x00, 0x00, 0x01, 0xe0, 0xff, 0xff, 0x84, 0xc0, 0x0a}, {0x00, 0x00, 0x01, 0xbd, 0x00, 0x00}, {0x00, 0x02, 0xb0, 0x12}}[r.Intn(3)])
+		}
 		return p, p[4:], true
 	default:
 		p[3] |= 0x30
@@ -64,12 +67,20 @@ func genPacket(r *gen.Rand) (p packet.Packet, pay []byte, hasPay bool) {
 			p[4] = byte(L)
 			return p, nil, false
 		}
+		if r.Chance(6) {
+			L = 183 - r.PickInt([]int{3, 4, 5, 6, 7, 8, 9, 13, 14, 18, 19}) // a payload of a few bytes only
+		}
 		p[4] = byte(L)
 		if L > 0 {
 			p[5] = 0
 			for i := 6; i < 5+L; i++ {
 				p[i] = 0xff
 			}
+		}
+		if r.Chance(4) && 188-(5+L) >= 3 {
+			// the payload is the start of a PES packet or of a section (what the units the accumulator is used for
+			// begin with), however much of it fits in
+			copy(p[5+L:], [][]byte{{0x00, 0x00, 0x01, 0xe0, 0xff, 0xff, 0x84, 0xc0, 0x0a}, {0x00, 0x00, 0x01, 0xbd, 0x00, 0x00}, {0x00, 0x02, 0xb0, 0x12}, {0x00, 0xfc, 0x30, 0x11}}[r.Intn(4)])
 		}
 		return p, p[5+L:], true
 	}
@@ -350,6 +361,11 @@ func history(c *mon.Ctx, r *gen.Rand) {
 	}
 	var prevPkt packet.Packet
 	havePrev := false
+	var slot packet.Packet
+	oneVariable := r.Chance(3)
+	if oneVariable {
+		events["all_packets_written_through_one_variable"] = true
+	}
 	n := 1 + r.Intn(24)
 	for step := 0; step < n; step++ {
 		if r.Chance(3) && !other() {
@@ -378,7 +394,19 @@ func history(c *mon.Ctx, r *gen.Rand) {
 			hist = append(hist, fmt.Sprintf("WritePacket(pusi=%v afc=%d aflen=%d payload=%d)", pusi, p[3]>>4&3, afl(&p), len(pay)))
 			c.Tracef("%s", hist[len(hist)-1])
 			lastArgs = nil
-			_, err := acc.WritePacket(&p)
+			arg := &p
+			if oneVariable {
+				// the caller fills one and the same packet variable for every write (the way a reading loop does)
+				slot = p
+				arg = &slot
+			}
+			_, err := acc.WritePacket(arg)
+			if oneVariable {
+				p = slot
+				for k := range slot {
+					slot[k] ^= 0xc3
+				}
+			}
 			c.Eval(1)
 			hist[len(hist)-1] += fmt.Sprintf(" -> %v", err)
 			c.Tracef("   -> err=%v, predicate invoked %d time(s)", err, len(lastArgs))
